@@ -71,13 +71,36 @@ impl Cors {
                 Some(same_origin_allowed_headers)
             }
             Some(origin) => match Uri::try_from(origin.as_bytes()) {
-                Ok(origin) => match self.check_origin(&origin, request.uri().path()) {
-                    Some(allowed) if allowed.0.allowed(request.method()) => Some(allowed),
-                    _ => None,
-                },
+                Ok(origin) => {
+                    let path = request.uri().path();
+                    let check = |path: &str| {
+                        self.check_origin(&origin, path)
+                            .filter(|allowed| allowed.0.allowed(request.method()))
+                    };
+                    // Files are read from the percent-decoded path, where repeated `/` don't
+                    // matter (`/%61pi/x` and `/api//x` read `api/x`): the rule of the path the
+                    // file is read from has to allow the request too.
+                    let resolved = Self::resolved_path(path);
+                    if resolved != path && check(&resolved).is_none() {
+                        return None;
+                    }
+                    check(path)
+                }
                 Err(_) => None,
             },
         }
+    }
+    /// The path the file system resolves `path` to:
+    /// percent-decoded and without repeated `/`.
+    fn resolved_path(path: &str) -> String {
+        let decoded = utils::percent_decode(path);
+        let mut resolved = String::with_capacity(decoded.len());
+        for c in decoded.chars() {
+            if !(c == '/' && resolved.ends_with('/')) {
+                resolved.push(c);
+            }
+        }
+        resolved
     }
     /// Checks if `uri` is the same origin as `origin`.
     fn is_part_of_origin(origin: &str, uri: &Uri) -> bool {
